@@ -16,10 +16,17 @@ META = {
             "the callback does through further callbacks (RunLua = any finite sequence of exported callbacks, Q unchanged, V only "
             "able to become true).  The obligation `check Gen.callbacks = true` over the term translated from the current "
             "contract/*.go source is closed by vm_compute on every run.  F13 (negative amount, fork version 4) is outside the "
-            "hypothesis and reported as a known finding from the translated term.",
+            "hypothesis and reported as a known finding from the translated term.  The read-only hypothesis is derived, not "
+            "assumed, for view functions: Theorem counter_discipline (VmGuard/Balance.v, no axioms) gives the semantics of the "
+            "view-depth counter ctx.nestedView (IncV / DecV, deferred statements run at every exit, callees and contract code may "
+            "panic) and proves that a program accepted by counter_ok restores the counter on every path through every function "
+            "and keeps it above its entry value while the body of a view function runs; counter_ok over all translated functions "
+            "of package contract is closed by vm_compute on every run, every other syntactic use of isQuery / nestedView / "
+            "isFeeDelegation / isView must be in the reviewed list (isQuery is never assigned; contexts are never copied), and "
+            "C20_view_function_readonly composes both analyses.",
     "note": "No implementation run is possible (LuaJIT sources absent).  Trusted: the translator gen_vmguard (no type information: "
             "method calls resolved by name and arity to every candidate), its reviewed lists of mutators / restore operations and "
-            "the RunLua abstraction of executor.call, the C-side scanner, read-only SQLite connections for queries, Coq kernel/vm_compute.",
+            "the reviewed list of flag uses, luaViewStart / luaViewEnd being called in pairs by the VM, the C-side scanner, read-only SQLite connections for queries, Coq kernel/vm_compute.",
     "technique": "verified abstract interpreter (proof by reflection) over a source-to-Gallina translation of the host API",
 }
 
@@ -115,6 +122,62 @@ def coq_paths(ctx, which):
     return paths, out
 
 
+def coq_counter(ctx):
+    """the view-counter analysis on the generated term: failing functions with a witness path, and the
+    differences between the generated and the reviewed flag uses"""
+    txt = ["From Coq Require Import String List Bool ZArith.",
+           "From Verif Require Import VmGuard.Lang VmGuard.Balance VmGuard.Reviewed Gen.Callbacks Gen.CCallbacks.",
+           "Import ListNotations.", "Open Scope Z_scope.",
+           # the definitions of Properties/C20.v (which may not compile when this is needed)
+           'Definition bracket (f : string) : bool := String.eqb f "luaViewStart" || String.eqb f "luaViewEnd".',
+           "Definition counter_program : prog := (Gen.Callbacks.all_functions ++ Gen.CCallbacks.c_program)%list.",
+           "Definition counter_callbacks : list string := (filter (fun f => negb (bracket f)) Gen.Callbacks.callbacks ++ Gen.CCallbacks.c_entries)%list.",
+           "Definition lua_runners : list string := lua_iter 12 counter_program [].",
+           "Definition RES_PATHS := Eval vm_compute in flat_map (fun x => map (fun v => (fst (fst x), snd (fst x), fst v, a_d (snd v), a_p (snd v), a_w (snd v))) (snd x)) "
+           "(counter_offending bracket lua_runners counter_program).", "Print RES_PATHS.",
+           "Definition RES_CLOSED := Eval vm_compute in lua_closed counter_program lua_runners.", "Print RES_CLOSED.",
+           "Definition RES_NEW := Eval vm_compute in flag_sites_new flag_sites.", "Print RES_NEW.",
+           "Definition RES_GONE := Eval vm_compute in flag_sites_gone flag_sites.", "Print RES_GONE.",
+           "Definition RES_LUA := Eval vm_compute in (lua_running_c, lua_library_c, lua_running_ok lua_running_c lua_library_c).", "Print RES_LUA.",
+           "Definition RES_END := tt.", "Print RES_END."]
+    rc, out = ctx.coq_eval("counter", "\n".join(txt))
+    if rc != 0:
+        return None, out
+    flat = " ".join(out.split())
+    names = ["RES_PATHS", "RES_CLOSED", "RES_NEW", "RES_GONE", "RES_LUA", "RES_END"]
+    sec = {}
+    for i, n in enumerate(names[:-1]):
+        m = re.search(r"\b%s = (.*?) \b%s = " % (n, names[i + 1]), flat)
+        if not m:
+            return None, "could not find %s in:\n%s" % (n, out[-1500:])
+        # drop the trailing ': type'
+        sec[n] = m.group(1).rsplit(" : ", 1)[0].strip()
+    res = {"paths": [], "new": [], "gone": []}
+    r = sec["RES_PATHS"]
+    for m in re.finditer(r'\("([^"]+)",\s*(true|false),\s*"([^"]+)",\s*(-?\d+),\s*(-?\d+),\s*(\[.*?\]|nil)\)(?=;|\s*\]|\s*$)', r):
+        fn, v, reason, d, p, w = m.groups()
+        steps = [{"at": a.replace('""', '"'), "taken": b == "true"} for a, b in re.findall(r'\("((?:[^"]|"")*)",\s*(true|false)\)', w)]
+        res["paths"].append({"function": fn, "isView": v == "true", "reason": reason, "counter_delta_at_exit": int(d),
+                             "pending_deferred_effect": int(p), "net_effect_on_nestedView": int(d) + int(p), "path": steps})
+    if r not in ("[]", "nil") and not res["paths"]:
+        return None, "could not parse the printed counter paths:\n" + out[-1500:]
+    for n, key in (("RES_NEW", "new"), ("RES_GONE", "gone")):
+        t = sec[n]
+        items = re.findall(r'\("((?:[^"]|"")*)",\s*"((?:[^"]|"")*)",\s*"((?:[^"]|"")*)"\)', t)
+        if t not in ("[]", "nil") and not items:
+            return None, "could not parse %s:\n%s" % (n, out[-1500:])
+        res[key] = [{"function": a, "field": b, "what": c.replace('""', '"')} for a, b, c in items]
+    if sec["RES_CLOSED"] not in ("true", "false"):
+        return None, "could not parse RES_CLOSED:\n" + out[-1500:]
+    res["lua_closed"] = sec["RES_CLOSED"] == "true"
+    m = re.search(r'\((.*),\s*(true|false)\)$', sec["RES_LUA"])
+    if not m:
+        return None, "could not parse RES_LUA:\n" + out[-1500:]
+    res["lua_running_ok"] = m.group(2) == "true"
+    res["lua_running"] = re.findall(r'"([^"]+)"', m.group(1))
+    return res, out
+
+
 def run(ctx):
     cbs, funcs, muts, txt = gen_callbacks(ctx)
     pr = ctx.prove()
@@ -122,7 +185,7 @@ def run(ctx):
                                "RunLua abstraction of executor.call", "Python scanner of the C modules", "read-only SQLite connection for queries"]
     ctx.assumptions = ["amounts are non-negative or fork version >= 5 (F13 otherwise)",
                        "contract code reaches the state only through the exported callbacks (LuaJIT sandbox)",
-                       "Q is not modified during an execution; nestedView is only changed by luaViewStart/luaViewEnd around view functions"]
+                       "the VM calls luaViewStart / luaViewEnd in matched pairs (the only counter operations outside executor.call)"]
     cres = gen_c(ctx, cbs)
     ctx.coq_make(["Gen/CCallbacks.vo", "VmGuard/CSide.vo"])
     # ---- paths
@@ -139,6 +202,12 @@ def run(ctx):
         ctx.violation("could not evaluate the analysis on the translated callbacks", {"log": out1[-2000:]}, no_input=True)
         bad = []
     c_fail = []
+    # ---- the view counter and the other context flags
+    ctx.coq_make(["VmGuard/Balance.vo", "VmGuard/Reviewed.vo", "Gen/Callbacks.vo"])
+    cnt, outc = coq_counter(ctx)
+    if cnt is None:
+        ctx.violation("could not evaluate the view-counter analysis on the translated functions", {"log": outc[-2000:]}, no_input=True)
+        cnt = {"paths": [], "new": [], "gone": [], "lua_closed": True, "lua_running_ok": True, "lua_running": []}
     unrev = c_unreviewed(ctx)
     if unrev is None:
         c_fail.append(("the C inventory could not be evaluated", []))
@@ -171,6 +240,9 @@ def run(ctx):
         ctx.sample({"luaSetDB": m.group(1)[:400]})
     ctx.notes.append("no implementation run: the LuaJIT VM cannot be built here; the translated term is the object of the proof")
 
+    ctx.cov["input_distribution"].update({"functions_in_counter_analysis": len(set(re.findall(r"^Definition f_(\w+) : stmt", txt, re.M))) + len(cres["reachable"]),
+                                          "flag_uses_reviewed": len(re.findall(r"^  \(", txt.split("Definition flag_sites")[1].split("].")[0], re.M)),
+                                          "lua_running_cgo_entry_points": cnt["lua_running"]})
     # ---- decide
     nopro = "No contract program can be executed in this environment (LuaJIT sources absent): the failing input is the path through the host callback."
     badset = set()
@@ -185,6 +257,44 @@ def run(ctx):
             ctx.finding(key, "exported callback %s reaches mutator %s in a read-only context" % (pth["callback"], pth["mutator"]),
                         {"path": pth, "all_contexts": [p["context"] for p in bad if p["callback"] == pth["callback"] and p["mutator"] == pth["mutator"]],
                          "note": nopro})
+    groups = {}
+    for pth in cnt["paths"]:
+        groups.setdefault((pth["function"], pth["reason"]), []).append(pth)
+    fmt_steps = lambda pth: "; ".join(
+        (st["at"] if st["at"] in ("return",) or st["at"].startswith("panic in") or st["at"] == "contract code fails"
+         else "%s -> %s" % (st["at"], "taken" if st["taken"] else "not taken")) for st in pth["path"]) or "(straight line to the end of the body)"
+    for (fn, reason), plist in list(groups.items())[:6]:
+        # prefer an exit by return over an exit by a panic of a callee
+        plist.sort(key=lambda p: (0 if p["path"] and p["path"][-1]["at"] == "return" else 1, len(p["path"])))
+        pth = plist[0]
+        key = "C20:counter:%s:%s" % (fn, reason)
+        if reason.startswith("exit leaves"):
+            title = ("%s (isView=%s): an exit leaves ctx.nestedView changed by %+d, i.e. at %d in a fresh context (counter delta at the exit %d, "
+                     "deferred statements %+d); path: %s"
+                     % (fn, str(pth["isView"]).lower(), pth["net_effect_on_nestedView"], pth["net_effect_on_nestedView"],
+                        pth["counter_delta_at_exit"], pth["pending_deferred_effect"], fmt_steps(pth)))
+        else:
+            title = "%s (isView=%s): %s (counter delta %d); path: %s" % (fn, str(pth["isView"]).lower(), reason,
+                                                                        pth["counter_delta_at_exit"], fmt_steps(pth))
+        if len(plist) > 1:
+            title += " [%d failing exits in all; the others: %s]" % (len(plist), " | ".join(fmt_steps(p) for p in plist[1:4]))
+        ctx.finding(key, title, {"path": pth, "all_paths": plist[:8], "note": nopro})
+    for st in cnt["new"]:
+        ctx.finding("C20:flaguse:new:%s:%s:%s" % (st["function"], st["field"], st["what"]),
+                    "use of context flag %s in %s that is not in the reviewed list: %s" % (st["field"], st["function"], st["what"]),
+                    {"site": st, "note": nopro})
+    for st in cnt["gone"]:
+        ctx.finding("C20:flaguse:gone:%s:%s:%s" % (st["function"], st["field"], st["what"]),
+                    "reviewed use of context flag %s in %s no longer occurs (initialiser or constructor call removed / changed): %s"
+                    % (st["field"], st["function"], st["what"]), {"site": st, "note": nopro})
+    if not cnt["lua_closed"]:
+        ctx.violation("the set of functions that may run contract code is not closed (increase the iteration bound of lua_iter)", {}, no_input=True)
+    if not cnt["lua_running_ok"]:
+        ctx.violation("cgo entry points that run Lua code differ from the reviewed classification in VmGuard/Reviewed.v",
+                      {"generated": cnt["lua_running"], "note": nopro}, no_input=True)
+    flagbad = bool(cnt["paths"] or cnt["new"] or cnt["gone"] or not cnt["lua_closed"] or not cnt["lua_running_ok"])
+    if bad or flagbad:
+        pass
     elif not pr["ok"]:
         ctx.violation("proof obligation no longer checks: %s" % pr["broken"],
                       {"theorem_or_file": pr["broken"], "log": pr["log"][-3000:], "note": nopro}, no_input=True)
